@@ -40,7 +40,7 @@ def fn_props(f):
 def units_for(prop, units):
     out = []
     for n, u in units.items():
-        if getattr(u, "dev", False):
+        if getattr(u, "dev", False) or n in getattr(sys.modules.get("specs"), "DEV_UNITS", ()):
             continue
         for x in u.items:
             if x.kind == "fn" and prop in fn_props(x):
@@ -141,6 +141,11 @@ def run_unit(unit, drop_hints=(), suffix=""):
                     break
             if fail["clause"] is None:
                 fail["clause"] = ("trait-ensures:" if ek == "trait-contract" else "ensures:") + t[:60]
+        if kind == "assertion" and ek and ek.startswith("claim:"):
+            c = f.claims[int(ek.split(":")[1])]
+            fail["clause"] = "claim:" + (c[5] if len(c) > 5 else ek)
+            fail["props"] = c[4].split(",") if len(c) > 4 and c[4] else None
+            fail["clause_text"] = c[2]
         if kind == "assertion" and ek == "hint":
             oc.hint_failures.setdefault(q, []).append(fail)
             continue
